@@ -113,7 +113,7 @@ fn ref_get(specs: &[LayerSpec], name: usize, idx: usize) -> Option<Val> {
         k -= 1;
         code = (code << 2) | chain[k] as u16;
     }
-    Some(Val { code, len: n as u8 })
+    Some(Val { code, len: n as u8, nested: false })
 }
 fn ref_vis(specs: &[LayerSpec], name: usize, idx: usize) -> Option<Visibility> {
     let mut exists = false;
@@ -136,7 +136,9 @@ fn ref_vis(specs: &[LayerSpec], name: usize, idx: usize) -> Option<Visibility> {
 }
 #[cfg(verif_playback)]
 fn jsonnet_chain(specs: &[LayerSpec]) -> String {
-    // a Jsonnet expression building the same chain (tokens become one-character strings)
+    // a Jsonnet expression building the same chain: the token of the last layer becomes a one-character string,
+    // the tokens of the layers below it numbers, so that `+` is not associative in the replay either
+    // ((1 + 2) + "3" = "33", 1 + (2 + "3") = "123")
     let names = ["f", "g"];
     let mut parts: Vec<String> = Vec::new();
     let mut acc = String::new();
@@ -155,7 +157,8 @@ fn jsonnet_chain(specs: &[LayerSpec]) -> String {
             for n in 0..2 {
                 if s.m[n].present {
                     let colon = match s.m[n].vis { 0 => ":", 1 => "::", _ => ":::" };
-                    fields.push(format!("{}{}{} \"{}\"", names[n], if s.m[n].add { "+" } else { "" }, colon, i + 1));
+                    let val = if i + 1 == specs.len() { format!("\"{}\"", i + 1) } else { format!("{}", i + 1) };
+                    fields.push(format!("{}{}{} {}", names[n], if s.m[n].add { "+" } else { "" }, colon, val));
                 }
             }
             let lit = format!("{{{}}}", fields.join(", "));
@@ -191,9 +194,27 @@ macro_rules! chain_harnesses {
                     println!("REPLAY-JSONNET: local o = {}; if std.objectHasAll(o, \"{}\") then o.{} else \"absent\"", jsonnet_chain(&specs), n, n);
                     match want {
                         Some(v) => {
+                            // left-to-right fold of the replay values: numbers add, anything + string concatenates
+                            let mut num: Option<u32> = None;
                             let mut s = String::new();
-                            for k in (0..v.len).rev() { s.push((b'0' + ((v.code >> (2 * k)) & 3) as u8) as char); }
-                            println!("REPLAY-EXPECT: value \"{}\"", s);
+                            let mut first = true;
+                            for k in (0..v.len).rev() {
+                                let tok = ((v.code >> (2 * k)) & 3) as u32;
+                                let is_str = tok as usize == $l;
+                                if first {
+                                    if is_str { s = tok.to_string(); } else { num = Some(tok); }
+                                    first = false;
+                                } else if let (Some(a), false) = (num, is_str) {
+                                    num = Some(a + tok);
+                                } else {
+                                    if let Some(a) = num.take() { s = a.to_string(); }
+                                    s.push_str(&tok.to_string());
+                                }
+                            }
+                            match num {
+                                Some(a) => println!("REPLAY-EXPECT: value {}", a),
+                                None => println!("REPLAY-EXPECT: value \"{}\"", s),
+                            }
                         }
                         None => println!("REPLAY-EXPECT: value \"absent\""),
                     }
